@@ -6,6 +6,8 @@ package main
 //   - /verif/seeded/<id>/patch.diff   (independently written, dynamically confirmed breakages)
 //   - /verif/mutants/catalogue.json   (single-site semantic mutants, each must fire;
 //                                       behaviour-preserving edits, each must stay silent)
+//   - /verif/mutants/benign/*.diff    (independently written behaviour-preserving
+//                                       refactorings, each must stay silent)
 // The result is evidence about the checker; it never changes a property's verdict.
 
 import (
@@ -73,6 +75,14 @@ func selftestImpl(verifDir, repo, prop string) map[string]any {
 					}
 				}
 			}
+		}
+	}
+	// behaviour-preserving refactorings written independently (extract helper, closure to
+	// method, loop forms, ...): every check must stay silent on each
+	if ds, err := filepath.Glob(filepath.Join(verifDir, "mutants", "benign", "*.diff")); err == nil {
+		sort.Strings(ds)
+		for _, d := range ds {
+			entries = append(entries, mutant{ID: "benign/" + strings.TrimSuffix(filepath.Base(d), ".diff"), Props: []string{prop}, patch: d, Benign: true})
 		}
 	}
 	exe, _ := os.Executable()
